@@ -219,7 +219,11 @@ impl PeerState {
                 origin: origin2,
             } => {
                 if origin2 != origin {
-                    warn!(actual = ?origin, expected = ?origin2, "finished sync origin does not match state")
+                    // A stale completion: e.g. our own dial finishing (declined, failed) after we
+                    // accepted the peer's concurrent request. The session that is running now is
+                    // not the one that finished, so the state must stay as it is.
+                    warn!(actual = ?origin, expected = ?origin2, "finished sync origin does not match state");
+                    return None;
                 }
                 Some(*start)
             }
